@@ -395,6 +395,14 @@ def run_script(lines0, traj, ops, *, edit_cmds=("Slow", "Quick"), inj_cmds=("Slo
                        if i != skip_op and not (drop_edits and o["op"] == "edit") and not (drop_injects and o["op"] == "inject")])
         # from the same tick on in every twin (also when an op is left out): the rest of the run is kept able to progress
         last_op_tick = max([o["tick"] for o in ops], default=0)
+        # injected lines are not part of the reported method state: their Waits look like silence, so the quiet window grows
+        # by everything an injected snippet can legitimately spend
+        quiet_need = QUIET_TICKS
+        for o in ops:
+            if o["op"] == "inject":
+                for x in o["snippet"]:
+                    for y in [x] + list(x.get("c", [])):
+                        quiet_need += 3 + (int(round(float(y.get("d", 0)) * 10)) if y.get("k") == "wait" else 0)
         h.set_inputs(**traj_at(traj, 0))
         o0 = h.start()
         res["state_before"][0] = "Stopped"
@@ -407,7 +415,7 @@ def run_script(lines0, traj, ops, *, edit_cmds=("Slow", "Quick"), inj_cmds=("Slo
             t += 1
             if n_ticks is not None and t > n_ticks:
                 break
-            if n_ticks is None and (t > MAX_TICKS or (t > last_op_tick and quiet >= QUIET_TICKS)):
+            if n_ticks is None and (t > MAX_TICKS or (t > last_op_tick and quiet >= quiet_need)):
                 break
             inp = traj_at(traj, t)
             if inp:
@@ -474,7 +482,7 @@ def run_script(lines0, traj, ops, *, edit_cmds=("Slow", "Quick"), inj_cmds=("Slo
             quiet = 0 if busy else quiet + 1
             prev_ms = cur_ms
         res.update(events=list(h.events), final_lines=lines, final_ms=ms_sets(h.method_state()), n_ticks=t - 1,
-                   quiet=quiet >= QUIET_TICKS, final_state=prev_state,
+                   quiet=quiet >= quiet_need, final_state=prev_state,
                    cmds_left=sorted(h.uod.command_instances.keys()),
                    error_events=[e for e in h.events if e[1] == "method_error"])
     finally:
